@@ -162,6 +162,9 @@ func init() {
 			if idx%12 == 7 {
 				return c03ForgottenSessionSpec(seed, r)
 			}
+			if idx%12 == 3 {
+				return c03SlowLinkSpec(seed, r)
+			}
 			tr := []string{"tcp", "udp", "udp"}[r.Intn(3)]
 			maxBytes := r.Pick(1, 1500, 20000, 100000, 300000)
 			if tier == "thorough" {
@@ -191,6 +194,33 @@ func init() {
 			return s
 		},
 	})
+}
+
+// c03SlowLinkSpec: UDP over a long but loss-free path (0.3-0.8 s each way). The writer hands over
+// tens of kilobytes and closes at once: the graceful part of Close (about a second) cannot drain
+// the send queue through the initial window, so the close request leaves while data that was
+// accepted by Write has never been sent. The reader must get an error, not a clean end.
+func c03SlowLinkSpec(seed uint64, r *simnet.Rng) *spec.RunSpec {
+	s := genStreamSpec("C03", seed, streamGenOpts{transport: "udp", maxBytes: 3000, maxSessions: 1, closeMode: "afterwrite", rich: r.Bool(0.3)})
+	s.Clients = s.Clients[:1]
+	c := &s.Clients[0]
+	c.Sessions = c.Sessions[:1]
+	se := &c.Sessions[0]
+	se.StartUs = 0
+	se.Closer = []string{"client", "server"}[r.Intn(2)]
+	se.CloseDelayUs = int64(r.Pick(0, 0, 50, 100000))
+	big := spec.Script{Writes: []int{r.Pick(20000, 32768, 60000, 100000)}, GapsUs: []int64{1}, ReadBufs: []int{32768}, ReadGapUs: 1}
+	small := spec.Script{Writes: []int{r.Pick(1, 100)}, GapsUs: []int64{1}, ReadBufs: []int{32768}, ReadGapUs: 1}
+	if se.Closer == "client" {
+		se.C2S, se.S2C = big, small
+	} else {
+		se.C2S, se.S2C = small, big
+	}
+	s.Net = spec.Net{LatencyUs: int64(r.Pick(300000, 500000, 750000))}
+	s.Liveness = nil
+	s.VirtualCapS = 900
+	s.Profile = "c03-udp-close-with-unsent-backlog"
+	return s
 }
 
 // c03ForgottenSessionSpec: UDP. The server application answers and closes at once; everything the
